@@ -93,12 +93,25 @@ def run(ctx, model):
                     ctx.violation("R-PATHSTATE", f.relpath, f.short, "<file reads>",
                                   f"{name}(text, is_path=False) tries to open {rt[2].extracted!r}", f.node.lineno, inp=inp)
 
-    # ---------------- R-READER
-    rf = model.method(PRE, "Pregex", "__extract_text")
-    ok, why = _reader_ok(rf)
-    ctx.instance("R-READER", key="reader", sample=f"__extract_text: {why}")
-    if not ok:
-        ctx.violation("R-READER", rf.relpath, rf.short, "<reader>", f"__extract_text: {why}", rf.node.lineno)
+    # ---------------- R-READER (semantic: how the path is opened and what is read from it)
+    rf = model.method(PRE, "Pregex", "__extract_text") if "_Pregex__extract_text" in model.pregex.methods else None
+    for name in sorted(meths):
+        f = meths[name]
+        kw = {p: (PATH if p == "source" else True if p == "is_path" else 1 if p in ("n_left", "n_right") else "<repl>" if p == "repl"
+                  else 0 if p == "count" else True) for p in f.params if p != "self"}
+        r = MM.run_method(model, name, [], kw, matches_for=MM.std_matches)
+        opens = r[2].opens
+        ctx.instance("R-READER", key=name, sample=f"{name}(path): open calls {opens}")
+        where = rf or f
+        for o in opens:
+            enc = str(o.get("encoding") or "").lower().replace("_", "-")
+            if o.get("mode") not in ("r", "rt", None) or enc not in ("utf-8", "utf8") or o.get("errors") not in (None, "strict"):
+                ctx.violation("R-READER", where.relpath, where.short, "open() arguments",
+                              "the file is not opened read-only as strict UTF-8 text", where.node.lineno, inp=name, detail=str(o))
+            if o.get("newline") not in (None,):
+                ctx.violation("R-READER", where.relpath, where.short, "open() arguments",
+                              "newline translation is changed: the text would differ from the file's content as a string",
+                              where.node.lineno, inp=name, detail=str(o))
 
     # ---------------- R-WINDOW
     f = model.method(PRE, "Pregex", "iterate_matches_with_context")
